@@ -202,13 +202,17 @@ func run(t *testing.T, kind string) {
 	vf.Check(t, kind, func(rt *rapid.T, rec *vf.Rec) {
 		m := newMachine(kind)
 		defer m.close()
+		names := gen.Alphabet(rt)
+		if names[1] != "ab" {
+			rec.Class("exotic-alphabet")
+		}
 		rt.Repeat(map[string]func(*rapid.T){
 			"step": func(rt *rapid.T) {
 				if m.diverged {
 					return // the case has ended; remaining drawn steps are ignored
 				}
 				tree := gen.TreeOf(ops.SnapOS(m.ref.Root))
-				op := gen.Op(rt, tree, gen.Names, 3, false)
+				op := gen.Op(rt, tree, names, 3, false)
 				if m.skipOp(op) {
 					rt.Skip("mount-boundary operation")
 				}
